@@ -32,6 +32,9 @@ pub use traits::ToLeanString;
 
 mod features;
 
+#[cfg(feature = "verif-hooks")]
+pub mod verif_hooks;
+
 /// Compact, clone-on-write, UTF-8 encoded, growable string type.
 #[repr(transparent)]
 pub struct LeanString(Repr);
